@@ -58,6 +58,8 @@ class time_guard(object):
 
             soft, hard = resource.getrlimit(resource.RLIMIT_AS)
             if soft != hard:
+                if getattr(self, "soft0", None) is None:
+                    self.soft0 = soft
                 resource.setrlimit(resource.RLIMIT_AS, (hard, hard))
         except Exception:
             pass
@@ -93,6 +95,15 @@ class time_guard(object):
         if self.on:
             signal.setitimer(signal.ITIMER_REAL, 0)
             signal.signal(signal.SIGALRM, self.old)
+            if getattr(self, "soft0", None) is not None:
+                try:
+                    import resource
+
+                    soft, hard = resource.getrlimit(resource.RLIMIT_AS)
+                    resource.setrlimit(resource.RLIMIT_AS, (self.soft0, hard))
+                except Exception:
+                    pass
+                self.soft0 = None
         return False
 
 
